@@ -43,6 +43,7 @@ class Unit:
         self.vcpath = None
         self.outside = []      # raw Rust emitted after the verus! block (Display impls etc.)
         self.included = set()
+        self.callghost = []    # R19: ghost argument appended to calls of a stubbed callee (emission-point preconditions)
         self.mutself = set()   # R15b: by-value `self` / `mut self` receivers rebound to a mutable local
         self.sqlmap = {}       # (fnpath, ordinal) -> dict(stub, sha): R7
         self.sqlseen = []      # what R7 found: dict(fn, n, stub, sha, sql)
@@ -181,6 +182,12 @@ def parse_vc(path):
             if not m:
                 raise SystemExit("%s:%d: bad hint" % (path, ln))
             cur = dict(kind="hint", fn=m.group(1), where=m.group(2), anchor=m.group(3), nth=int(m.group(4) or 1), plus=int(m.group(5) or 0), line=ln)
+        elif d == "callghost":
+            # @@ callghost <fnpath> <callee> "<first argument text>" "<ghost expression>"
+            m = re.match(r'@@\s*callghost\s+(\S+)\s+(\S+)\s+"(.*?)"\s+"(.*)"\s*$', raw)
+            if not m:
+                raise SystemExit("%s:%d: bad callghost" % (path, ln))
+            u.callghost.append(dict(fn=m.group(1), callee=m.group(2), first=m.group(3), ghost=m.group(4), count=0, line=ln))
         elif d == "mutself":
             u.mutself.add(parts[1])
         elif d == "sql":
@@ -782,6 +789,40 @@ def rebind_self(text, log, where):
     return out
 
 
+def add_call_ghosts(u, fnpath, text, log):
+    """R19: calls `callee(FIRST, ...)` inside fnpath get one more argument `Ghost(EXPR)`; executable arguments are untouched.
+    The stub of the callee states its emission-point precondition over that ghost value."""
+    for cg in u.callghost:
+        if cg["fn"] != fnpath:
+            continue
+        pos = 0
+        while True:
+            toks = lex(text)
+            hit = None
+            for i, t in enumerate(toks):
+                if t.start < pos:
+                    continue
+                if t.kind == "id" and t.text == cg["callee"] and i + 1 < len(toks) and toks[i + 1].text == "(" and (i == 0 or toks[i - 1].text != "fn"):
+                    close = match_close(toks, i + 1)
+                    args = split_args(text[toks[i + 1].end:toks[close].start])
+                    if args and norm_ws(args[0]) == norm_ws(cg["first"]):
+                        hit = (i, close)
+                        break
+            if hit is None:
+                break
+            i, close = hit
+            ins = toks[close].start
+            # trailing comma?
+            before = text[:ins].rstrip()
+            sep = "" if before.endswith(",") else ", "
+            add = "%sGhost(%s)" % (sep, cg["ghost"])
+            text = text[:ins] + add + text[ins:]
+            pos = ins + len(add) + 1
+            cg["count"] += 1
+            log.append(("R19", fnpath, "ghost argument added to a call of %s(%s, ..)" % (cg["callee"], cg["first"])))
+    return text
+
+
 def annotate_closures(u, fnpath, text, log):
     """R13: give a closure an explicit Verus header (parameter types, requires/ensures); the body is
     kept verbatim (wrapped in a block when it is a bare expression)."""
@@ -850,6 +891,7 @@ def process_fn(u, fnpath, text, log, origin, canary=None):
         text = desugar_let_chains(text, log, fnpath)
     text = apply_substs(u, fnpath, text, log)
     text = name_wildcard_closure_params(text, log, fnpath)
+    text = add_call_ghosts(u, fnpath, text, log)
     # hints first: every anchor is resolved on the text as extracted (before any hint is
     # inserted), then the insertions are made bottom-up
     lines = text.split("\n")
